@@ -86,9 +86,26 @@ func emissionRules(e *Env, sks []*skeleton, want map[string]bool) {
 		}
 		for i, ex := range sk.Services {
 			g := m.Services[i]
-			sk2 := shapeKey(ex.Shape)
+			sh := ex.Shape
+			var cs []string
+			for _, c := range sh.Calls {
+				k := "call"
+				if c.Immutable {
+					k = "wither"
+				}
+				cs = append(cs, fmt.Sprintf("%s/%d", k, c.NArgs))
+			}
+			calls := "calls=[" + strings.Join(cs, " ") + "]"
+			crea := sh.Creation + "/" + sh.TypeForm
+			if sh.Todo {
+				crea = "todo"
+			}
+			sk2 := crea
 			if g.Name != ex.Name {
 				note("R02.5", "service["+sk2+"]#registered-name", false, fmt.Sprintf("block %d registers %q, declared %q", i, g.Name, ex.Name))
+				if ex.Todo {
+					note("R15.1", "service[todo]#block", false, fmt.Sprintf("the todo service %q is not registered (c.OverrideService missing): dependants would fail with 'does not exist' instead of 'service todo'", ex.Name))
+				}
 				continue
 			}
 			// every mutation of s precedes OverrideService, which is present
@@ -128,29 +145,29 @@ func emissionRules(e *Env, sks []*skeleton, want map[string]bool) {
 				note("R02.5", "service["+sk2+"]#type-only", okt, "a type-only service returns the zero value of the declared type "+ex.Type)
 			}
 			// arguments, in order
-			note("R02.5", "service["+sk2+"]#arguments", sameCodes(sk, g.Args, ex.Args), fmt.Sprintf("SetConstructor must receive the %d declared arguments in order", len(ex.Args)))
+			note("R02.5", fmt.Sprintf("service[%s args=%d]#arguments", sh.Creation, sh.NArgs), sameCodes(sk, g.Args, ex.Args), fmt.Sprintf("SetConstructor must receive the %d declared arguments in order", len(ex.Args)))
 			// fields
 			okf := len(g.Fields) == len(ex.Fields)
 			for j := 0; okf && j < len(ex.Fields); j++ {
 				okf = g.Fields[j].Name == ex.Fields[j].Name && canonExpr(sk.fset, g.Fields[j].Val.Expr0()) == canonSrc(ex.Fields[j].Code)
 			}
-			note("R02.5", "service["+sk2+"]#fields", okf, fmt.Sprintf("one SetField(name, value) per declared field (%d)", len(ex.Fields)))
+			note("R02.5", fmt.Sprintf("service[%s fields=%d]#fields", sh.Creation, sh.NFields), okf, fmt.Sprintf("one SetField(name, value) per declared field (%d)", len(ex.Fields)))
 			// calls
 			okc := len(g.Calls) == len(ex.Calls)
 			for j := 0; okc && j < len(ex.Calls); j++ {
 				okc = g.Calls[j].Method == ex.Calls[j].Method && g.Calls[j].Immutable == ex.Calls[j].Immutable && sameCodes(sk, g.Calls[j].Args, ex.Calls[j].Args)
 			}
-			note("R02.5", "service["+sk2+"]#calls", okc, "one AppendCall / AppendWither per declared call, withers exactly where declared, in order, with the declared arguments: "+callSummary(g.Calls, ex.Calls))
+			note("R02.5", fmt.Sprintf("service[%s %s]#calls", sh.Creation, calls), okc, "one AppendCall / AppendWither per declared call, withers exactly where declared, in order, with the declared arguments: "+callSummary(g.Calls, ex.Calls))
 			// order: constructor, then fields, then calls
-			note("R02.5", "service["+sk2+"]#phase-order", phaseOrder(g.Order), "constructor before fields before calls: "+strings.Join(g.Order, ","))
+			note("R02.5", fmt.Sprintf("service[%s fields=%d %s]#phase-order", sh.Creation, sh.NFields, calls), phaseOrder(g.Order), "constructor before fields before calls: "+strings.Join(g.Order, ","))
 			// tags
 			okt := len(g.Tags) == len(ex.Tags)
 			for j := 0; okt && j < len(ex.Tags); j++ {
 				okt = g.Tags[j] == ex.Tags[j]
 			}
-			note("R04.3", "service["+sk2+"]#tags", okt, fmt.Sprintf("one s.Tag(name, priority) per declared tag with that argument order: generated %v, declared %v", g.Tags, ex.Tags))
+			note("R04.3", fmt.Sprintf("service[%s tags=%d]#tags", sh.Creation, sh.NTags), okt, fmt.Sprintf("one s.Tag(name, priority) per declared tag with that argument order: generated %v, declared %v", g.Tags, ex.Tags))
 			// scope
-			note("R05.1", "service[scope="+constName(ex.ScopeC)+"]#setter", g.ScopeCall == scopeSetter(ex.ScopeC), fmt.Sprintf("scope %s must call %s, generated %q", constName(ex.ScopeC), scopeSetter(ex.ScopeC), g.ScopeCall))
+			note("R05.1", fmt.Sprintf("service[%s scope=%s]#setter", sh.Creation, constName(ex.ScopeC)), g.ScopeCall == scopeSetter(ex.ScopeC), fmt.Sprintf("scope %s must call %s, generated %q", constName(ex.ScopeC), scopeSetter(ex.ScopeC), g.ScopeCall))
 		}
 		// decorators: in order, after all services
 		okd := len(m.Decorators) == len(sk.Decs)
